@@ -124,14 +124,19 @@ def check(res):
     echo = 0
     overlapped = False
     redo_mids = set()
+    msgs_since_running = 0
     start_steps = [e.step for e in v.evs if e.kind == "msg" and e.d["cmd"] == "_start_suspender"]
     for e in v.evs:
         if e.kind == "call_begin" and e.d["api"] == "call":
             overlapped = False
             suspended = 0
         k, d = e.kind, e.d
+        if k == "msg":
+            msgs_since_running += 1
         if k == "state":
             state = d["new"]
+            if state == "running":
+                msgs_since_running = 0
             if state == "paused" and suspended:
                 overlapped = True  # a pause inside a suspension: its resume re-instates the monitors early
         elif k == "cmd" and d["cmd"] == "monitor" and d["end"] == "ok":
@@ -172,9 +177,10 @@ def check(res):
                 # delivered in the very loop step (or the one before) in which a suspension starts - e.g. right after a
                 # resume that found the suspension waiting: either answer is legitimate
                 expect[val] = None
-            elif redo_mids and state == "running":
+            elif redo_mids and state == "running" and not msgs_since_running:
                 # the same window held open: the suspension's start was cut short by a pause, the resume brought the
-                # monitors back, and a second pause request came before the start could be carried out again
+                # monitors back, and a second pause request came before the start could be carried out again (no
+                # message at all has been processed since the resume: a replay running first is not this window)
                 expect[val] = None
             elif monitored and state == "running" and suspended == 0:
                 expect[val] = 1
